@@ -48,6 +48,7 @@ class P(vlib.Prop):
             "consumer tree with every component's arrival (cell, read-only, markers) and final markers compared with TreeModel.v. "
             "router: connector.NewXRouter over 1..3 pipelines (every capability vector, every selection of length 1..3, "
             "repetitions included) and random larger ones: capability of Consumer(ids...) and of the router, invocation order. "
+            "routes: one router, 2..4 Consumer(sel...) results kept, payloads sent afterwards (first route last); the slice passed to NewX is overwritten afterwards. "
             "built_*: consumer.NewX / processorhelper.NewX / exporterhelper.NewX with every list of 0..4 (0..3) WithCapabilities options, "
             "exporters with batching off / batcher / queue batch: advertised MutatesData; all fan-out consumers are built from multi-option lists. "
             "xrouter: the same router cases for xconnector.NewProfilesRouter. Every case is checked twice: against the model and by the "
@@ -90,7 +91,7 @@ class P(vlib.Prop):
                "fanout-capability-exact", "declared-mutator-never-panics", "caller-context-passed-through",
                "payload-fresh-in-every-delivery"]
     OTHER = {"CBuilt": ["built-consumer-advertises-its-last-capability-option"], "CPipe": ["pipeline-capability-exact"], "CTree": ["receiver-fanout-capability-exact", "pipeline-capability-exact"],
-             "CGraph": ["component-sees-exactly-its-upstream-mutations"], "CRouter": ["router-fanout-clauses"]}
+             "CGraph": ["component-sees-exactly-its-upstream-mutations"], "CRouter": ["router-fanout-clauses"], "CRoutes": ["kept-route-consumers-deliver-to-their-own-selection"]}
 
     def clause_name(self, term, k):
         cons = term.lstrip("(").split(" ", 1)[0]
